@@ -385,3 +385,42 @@ func onlyGuards(o *an.Obl, f *an.Func, site an.Site, allowed []string, what stri
 func sortStrings(s []string) { sort.Strings(s) }
 
 func regexpQuote(s string) string { return regexp.QuoteMeta(s) }
+
+// everyIteration checks that each iteration of the range loop whose operand
+// canon matches loopRe passes one of the sites before returning to the loop
+// head. It returns false with the loop position when an iteration can skip
+// all of them; loops not found are reported as anchors.
+func everyIteration(o *an.Obl, f *an.Func, loopRe string, sites []an.Site, what string) {
+	re := regexp.MustCompile(loopRe)
+	var head *flow.Vertex
+	for _, v := range f.Graph().V {
+		if rs, ok := v.Node.(*ast.RangeStmt); ok && v.Kind == flow.KRange && re.MatchString(f.Canon(rs.X)) {
+			head = v
+		}
+	}
+	if head == nil {
+		o.FailAt(f.ID+"#loop-"+what, f.Where(f.Body.Pos()), "cannot find the loop over %s in %s", loopRe, f.ID)
+		return
+	}
+	stop := map[*flow.Vertex]bool{head: true}
+	for _, s := range sites {
+		stop[s.V] = true
+	}
+	var body *flow.Vertex
+	for _, e := range head.Out {
+		if e.Kind == flow.ERangeIn {
+			body = e.To
+		}
+	}
+	if body == nil {
+		o.FailAt(f.ID+"#loop-body-"+what, f.Where(head.Pos()), "loop over %s has no body", loopRe)
+		return
+	}
+	o.Site("%s: every iteration of the loop at %s passes %s", f.ID, f.Where(head.Pos()), what)
+	if stop[body] && body != head {
+		return
+	}
+	if f.Graph().Reach(body, nil, stop)[head] {
+		o.FailAt(f.ID+"#iteration-skips-"+what, f.Where(head.Pos()), "an iteration of the loop over %s can complete without %s", f.Canon(head.Node.(*ast.RangeStmt).X), what)
+	}
+}
